@@ -28,7 +28,7 @@ def gen_cfg(quick):
 
 
 def mc_cfg(quick, weaken="none"):
-    c = dict(Fmts='{"mdmf", "sdmf"}', MaxCalls=6 if quick else 8, Weaken='"%s"' % weaken)
+    c = dict(Fmts='{"mdmf", "sdmf"}', MaxCalls=6 if quick else 12, Weaken='"%s"' % weaken)
     t = "SPECIFICATION Spec\nCONSTANTS\n" + "".join("  %s = %s\n" % kv for kv in c.items())
     t += "".join("INVARIANT %s\n" % i for i in MC_INVS) + "PROPERTY W_RefuseIsSilent\nCHECK_DEADLOCK FALSE\n"
     return t, c
